@@ -276,7 +276,7 @@ def rawChecks (prop : String) (line implLine : String) : Option String :=
 def extChecks (line implLine : String) : Option String :=
   if implLine.startsWith "panic" then some "panicked" else
   match Sexp.parse line, parseRaw implLine with
-  | some (.list [.atom "ext", cmd, .list acts]), some p =>
+  | some (.list [.atom _, cmd, .list acts]), some p =>
     let (twoStage, innerOp) : Bool × Nat := match cmd with
       | .list [.atom "chain", .atom "stream", _, _, .list [.list [.atom "tstream", .atom b]], _] => (true, b.toNat?.getD 0)
       | _ => (false, 0)
@@ -321,7 +321,7 @@ def oracle (prop : String) (input : String) : String :=
     if !isCase line then "bad-case" else
     let kind := match Sexp.parse line with | some (.list (.atom h :: _)) => h | _ => ""
     let r := if kind == "law" || kind == "comm" || kind == "hosts" then canonChecks prop line impl
-             else if kind == "ext" then extChecks line impl
+             else if kind == "ext" || kind == "complete" then extChecks line impl
              else rawChecks prop line impl
     match r with
     | none => "ok"
